@@ -40,40 +40,8 @@ func runC07(w *World, r *Report) {
 }
 
 func lenZeroBypassEdges(fn *ssa.Function, list ssa.Value) []Edge {
-	var out []Edge
-	for _, b := range fn.Blocks {
-		for _, in := range b.Instrs {
-			bo, ok := in.(*ssa.BinOp)
-			if !ok {
-				continue
-			}
-			isLenOf := func(v ssa.Value) bool {
-				c, ok := v.(*ssa.Call)
-				if !ok {
-					return false
-				}
-				bi, ok := c.Call.Value.(*ssa.Builtin)
-				return ok && bi.Name() == "len" && sameValue(c.Call.Args[0], list)
-			}
-			zero := func(v ssa.Value) bool { i, ok := constInt(v); return ok && i == 0 }
-			if isLenOf(bo.X) && zero(bo.Y) {
-				for _, e := range condEdges(bo) {
-					// edge on which len == 0
-					switch bo.Op {
-					case token.GTR, token.NEQ:
-						if !e.truth {
-							out = append(out, e.Edge)
-						}
-					case token.EQL, token.LEQ:
-						if e.truth {
-							out = append(out, e.Edge)
-						}
-					}
-				}
-			}
-		}
-	}
-	return out
+	empty, _ := emptyEdges(fn, func(v ssa.Value) bool { return sameValue(v, list) })
+	return empty
 }
 
 func c07CheckFirst(w *World, r *Report, ef *Effects) {
@@ -360,23 +328,19 @@ func c07CheckContent(w *World, r *Report) {
 			continue
 		}
 		guarded := false
-		for _, b := range own.Blocks {
-			for _, in := range b.Instrs {
-				bo, ok := in.(*ssa.BinOp)
-				if !ok || bo.Op != token.GTR {
-					continue
-				}
-				if c, ok := bo.X.(*ssa.Call); ok {
-					if bi, ok := c.Call.Value.(*ssa.Builtin); ok && bi.Name() == "len" {
-						for _, e := range condEdges(bo) {
-							if !e.truth {
-								if ex, _ := g.PathExists(entryPos(own), retPos(rp), Avoid{}.withEdges(e.Edge)); !ex {
-									guarded = true
-								}
-							}
-						}
-					}
-				}
+		empty, _ := emptyEdges(own, func(v ssa.Value) bool {
+			_, isSlice := v.Type().Underlying().(*types.Slice)
+			return isSlice
+		})
+		for _, e := range empty {
+			// the return is reached only over an edge on which the mismatch list is empty
+			if ex, _ := g.PathExists(entryPos(own), retPos(rp), Avoid{}.withEdges(e)); !ex {
+				guarded = true
+			}
+		}
+		if !guarded && len(empty) > 0 {
+			if ex, _ := g.PathExists(entryPos(own), retPos(rp), Avoid{}.withEdges(empty...)); !ex {
+				guarded = true
 			}
 		}
 		r.Check(guarded, "C07/CHECK-CONTENT", fmt.Sprintf("checkOwnership/success-return#%d", i), w.InstrPos(rp.Ret), "success is returned only on the edge where no mismatch was recorded", "success can be returned although mismatches were recorded")
